@@ -562,6 +562,40 @@ func (x *kx) div(n *knf, c int64) *knf {
 	return x.atom(&katom{kind: "div", key: fmt.Sprintf("div(%d;%s)", c, n.key()), args: []*knf{n}, k: c, lo: a, hi: b})
 }
 
+// divv: truncated division of two sample-dependent non-negative values with a positive divisor.
+// floor((k*n)/(k*d)) == floor(n/d) for k > 0, so the common constant factor of all coefficients of
+// numerator and denominator is cancelled: (c*257*65535)/(a*257) and (c*65535)/a are one form.
+func (x *kx) divv(n, d *knf) *knf {
+	n, d = x.resolve(n), x.resolve(d)
+	nlo, nhi := x.iv(n)
+	dlo, dhi := x.iv(d)
+	if nlo < 0 || dlo < 1 || nhi >= kInf || dhi >= kInf {
+		kfail("division by a sample-dependent value that may be zero or negative (numerator [%s,%s], divisor [%s,%s])", infStr(nlo), infStr(nhi), infStr(dlo), infStr(dhi))
+	}
+	g := int64(0)
+	for _, f := range []*knf{n, d} {
+		g = gcd64(g, f.c)
+		for _, c := range f.t {
+			g = gcd64(g, c)
+		}
+	}
+	if g < 0 {
+		g = -g
+	}
+	if g > 1 {
+		n, d = scaleDown(n, g), scaleDown(d, g)
+	}
+	return x.atom(&katom{kind: "divv", key: fmt.Sprintf("divv(%s;%s)", n.key(), d.key()), args: []*knf{n, d}, lo: nlo / dhi, hi: nhi / dlo})
+}
+
+func scaleDown(n *knf, g int64) *knf {
+	r := &knf{c: n.c / g, t: map[string]int64{}}
+	for a, c := range n.t {
+		r.t[a] = c / g
+	}
+	return r
+}
+
 func (x *kx) and(n *knf, mask int64) *knf {
 	n = x.resolve(n)
 	lo, hi := x.iv(n)
@@ -1552,7 +1586,7 @@ func (x *kx) binop(f *kframe, t *ssa.BinOp) kval {
 		return x.typed(x.mul(an, bn), t.Type())
 	case token.QUO:
 		if !bn.isConst() {
-			kfail("division by a sample-dependent value")
+			return x.typed(x.divv(an, bn), t.Type())
 		}
 		return x.typed(x.div(an, bn.c), t.Type())
 	case token.SHR:
